@@ -241,6 +241,65 @@ def scale_windows(res, ctx, rng, names):
                 return
 
 
+def renumbered_tables(res, ctx, rng, names):
+    """Two code tables in one process that give ONE event id to two different calls: the bundled one, and a supplied one
+    in which two calls have swapped ids (a release that renumbers them).  Calls whose results are formatted in a way of
+    their own (hexadecimal, signed, boolean - found by rendering every decoder on the same END words) are swapped with
+    ordinary calls that use the same result label; both are rendered under both tables with the SAME END words, and
+    each still shows its own rendering of the return word."""
+    probe = {}
+    for name in names:
+        for w in (5, (1 << 63) + 5):
+            try:
+                probe[(name, w)] = split_result(render_outer(name, (3, 0x1000, 64, 0), (0, w, 0, 0)))[1]
+            except Exception:
+                probe[(name, w)] = None
+    by_label = {}
+    for name in names:
+        r = probe[(name, 5)]
+        m = re.match(r', ([A-Za-z_ ]+): ', r or '')
+        if m:
+            by_label.setdefault(m.group(1), []).append(name)
+    bundled = ev.bundled_codes()
+    for label, group in sorted(by_label.items()):
+        shapes = {}
+        for name in group:
+            shapes.setdefault((probe[(name, 5)], probe[(name, (1 << 63) + 5)]), []).append(name)
+        if len(shapes) < 2:
+            continue
+        common = max(shapes.values(), key=len)
+        for shape, special in shapes.items():
+            if special is common:
+                continue
+            for s_name in special:
+                for o_name in rng.sample(common, min(3, len(common))):
+                    ids, ido = ev.eid(s_name), ev.eid(o_name)
+                    table = dict(bundled)
+                    table[ids], table[ido] = bundled[ido], bundled[ids]
+                    for w in (5, (1 << 63) + 5, 0, 1):
+                        end = (0, w, 0, 0)
+                        want_s = render_outer(s_name, (3, 0x1000, 64, 0), end)       # (fills whatever is remembered per id)
+                        want_o = render_outer(o_name, (3, 0x1000, 64, 0), end)
+                        got = {}
+                        for nm, eid_ in ((s_name, ido), (o_name, ids)):
+                            parser = ev.new_parser(codes=table)
+                            out = None
+                            for e in H.materialize(H.on_thread(6, H.syscall(eid_, (3, 0x1000, 64, 0), end))):
+                                t = parser.feed(e)
+                                if t is not None:
+                                    out = str(t)
+                            got[nm] = out
+                        res.count('renderings_under_renumbered_tables', 2)
+                        res.case(('renumbered', s_name, o_name, w))
+                        if got[s_name] != want_s or got[o_name] != want_o:
+                            bad = s_name if got[s_name] != want_s else o_name
+                            res.violation('c10-result-depends-on-another-tables-ids', f'{s_name} and {o_name} swap their ids in a '
+                                          f'supplied table: {bad} (END words error 0, return {hex(w)}) reads {got[bad]!r}, under '
+                                          f'the bundled table {(want_s if bad == s_name else want_o)!r}',
+                                          {'name': bad, 'start': [3, 0x1000, 64, 0], 'end': list(end)})
+                            return
+
+
 def shared_front_end(res, ctx, rng, n_threads=4):
     """ONE front-end object (one set of display settings, colour on as by default) serves several OS threads at once, each
     listing its own dump from its own stream; the dumps declare the same thread map.  Every dump holds polling loops -
@@ -321,6 +380,8 @@ def run(ctx):
     stream.run_all(res, 'c10', STREAM_CASES, rng, 'result renderings', ctx)
     for _ in range(ctx.pick(2, 8)):
         shared_front_end(res, ctx, rng)
+    if ctx.shard == 0:
+        renumbered_tables(res, ctx, rng, [n for n in inv['bsd'] if n not in DECLARED_EXCLUSIONS])
     if ctx.shard == 0:
         res.sample({'decoder': 'BSC_read', 'success': render_outer('BSC_read', (3, 0x1000, 64, 0), (0, 64, 0, 0)),
                     'error': render_outer('BSC_read', (3, 0x1000, 64, 0), (35, 64, 0, 0)),
